@@ -11,7 +11,7 @@ import vlib
 
 
 def body(c):
-    n = 3 if c.quick else 5
+    n = 3 if c.quick else 4
     # mode M
     m = vlib.run_tlc("lex/Position.tla", "lex/MC_Position.cfg", workers=8, coverage=True, timeout=600)
     if m.invariant_violated:
@@ -38,8 +38,8 @@ def body(c):
         raise vlib.ToolError("c14 harness failed: " + p.stderr[-2000:])
     cases = vlib.read_ndjson(c.path("trace.ndjson"))
     by_id = {x["id"]: x for x in cases}
-    v = vlib.run_tlc("lex/PositionTrace.tla", "lex/PositionTrace.cfg", env={"TRACE": c.path("trace.ndjson")},
-                     workers=8, timeout=3000, keep_lines=100)
+    v = vlib.run_tlc_sliced("lex/PositionTrace.tla", "lex/PositionTrace1.cfg", c.path("trace.ndjson"), slices=8, timeout=3000, keep_lines=100, xmx="3g")
+    c.add_tlc("V PositionTrace", v)
     verdicts = {t[1]: t[2] for t in v.tagged("VERDICT")}
     if len(verdicts) != len(cases):
         raise vlib.ToolError("V produced %d verdicts for %d cases" % (len(verdicts), len(cases)))
